@@ -328,13 +328,22 @@ fn sweep_bin(lo: i64, n: i64) -> String {
     while s64 < lo + n {
         let s = s64 as i32;
         s64 += 1;
+        let (d0, h0, r0, dh0, hh0) = match guarded(|| {
+            (Date::from_binary(s), DateHour::from_binary(s), RawDate::from_binary(s), Date::from_binary_heuristic(s), DateHour::from_binary_heuristic(s))
+        }) {
+            Ok(v) => v,
+            Err(()) => {
+                t.check(false, || format!("from_binary({}) PANICS", s));
+                continue;
+            }
+        };
         let r = ref_from_binary(s);
         let f = |x: (i16, u8, u8, u8)| (x.0 as i32, x.1 as i32, x.2 as i32, x.3 as i32);
-        let got_d = Date::from_binary(s).map(|x| f((x.year(), x.month(), x.day(), 0)));
-        let got_h = DateHour::from_binary(s).map(|x| f((x.year(), x.month(), x.day(), x.hour())));
-        let got_r = RawDate::from_binary(s).map(|x| f((x.year(), x.month(), x.day(), x.hour())));
-        let got_dh = Date::from_binary_heuristic(s).map(|x| f((x.year(), x.month(), x.day(), 0)));
-        let got_hh = DateHour::from_binary_heuristic(s).map(|x| f((x.year(), x.month(), x.day(), x.hour())));
+        let got_d = d0.map(|x| f((x.year(), x.month(), x.day(), 0)));
+        let got_h = h0.map(|x| f((x.year(), x.month(), x.day(), x.hour())));
+        let got_r = r0.map(|x| f((x.year(), x.month(), x.day(), x.hour())));
+        let got_dh = dh0.map(|x| f((x.year(), x.month(), x.day(), 0)));
+        let got_hh = hh0.map(|x| f((x.year(), x.month(), x.day(), x.hour())));
         let exp_d = r.map(|(y, m, d, _)| (y, m, d, 0));
         let exp_h = r.map(|(y, m, d, h)| (y, m, d, h + 1));
         let exp_dh = r.and_then(|(y, m, d, h)| if y > -100 && h == 0 { Some((y, m, d, 0)) } else { None });
@@ -351,11 +360,11 @@ fn sweep_bin(lo: i64, n: i64) -> String {
         t.check(got_r == r, || format!("RawDate::from_binary({}) = {:?}", s, got_r));
         t.check(got_dh == exp_dh, || format!("Date::from_binary_heuristic({}) = {:?}", s, got_dh));
         t.check(got_hh == exp_hh, || format!("DateHour::from_binary_heuristic({}) = {:?}", s, got_hh));
-        if let Some(x) = Date::from_binary(s) {
+        if let Some(x) = d0 {
             t.acc += 1;
             t.check(x.to_binary() == s - s % 24, || format!("Date re-encode {}", s));
         }
-        if let Some(x) = DateHour::from_binary(s) {
+        if let Some(x) = h0 {
             t.check(x.to_binary() == s, || format!("DateHour re-encode {}", s));
         }
         acc_h += got_dh.is_some() as u64;
@@ -378,6 +387,10 @@ fn component_date(s: &[u8]) -> Option<(i32, i32, i32)> {
 }
 fn date_fields(s: &[u8]) -> Option<(i32, i32, i32)> {
     Date::parse(s).ok().map(|x| (x.year() as i32, x.month() as i32, x.day() as i32))
+}
+/// run a crate call; a panic is reported as Err so that the sweep can name the input
+fn guarded<T>(f: impl FnOnce() -> T) -> Result<T, ()> {
+    std::panic::catch_unwind(std::panic::AssertUnwindSafe(f)).map_err(|_| ())
 }
 
 /// mode "digits": every digit string of the four fast-path shapes for the years lo..=hi (0..=9999)
@@ -437,8 +450,13 @@ fn sweep_fast(mode: &str, lo: i32, hi: i32) -> String {
                                     buf.clear();
                                     buf.extend_from_slice(&base);
                                     buf[pos] = b;
-                                    let got = date_fields(&buf);
-                                    let comp = component_date(&buf);
+                                    let (got, comp) = match guarded(|| (date_fields(&buf), component_date(&buf))) {
+                                        Ok(v) => v,
+                                        Err(()) => {
+                                            t.check(false, || format!("parse({}) PANICS", hex(&buf)));
+                                            continue;
+                                        }
+                                    };
                                     if got.is_some() {
                                         t.acc += 1;
                                     }
